@@ -2,6 +2,7 @@ import BeffVerif.Props.C07
 import BeffVerif.Props.C07Print
 import BeffVerif.Props.C07Keyof
 import BeffVerif.Props.C07Idx
+import BeffVerif.Props.C07Names
 open BeffVerif.C07
 #print axioms excluded_numbers_widen_to_number
 #print axioms literal_sets_are_exact
@@ -13,3 +14,6 @@ open BeffVerif.C07
 #print axioms BeffVerif.C07Keyof.keyof_flat_object
 #print axioms BeffVerif.C07Keyof.keyof_flat_object_members
 #print axioms BeffVerif.C07Idx.idx_declared_key
+#print axioms BeffVerif.C07N.claims
+#print axioms BeffVerif.C07N.helper_names_defined_once
+#print axioms BeffVerif.C07N.helper_names_disjoint
